@@ -158,9 +158,10 @@ namespace adept {
       else if (status != MINIMIZER_STATUS_NOT_YET_CONVERGED) {
 	// Cost function or its gradient not finite: revert to
 	// previous step
-	step_size = cf1;
-	if (cf1 > 0.0) {
+	step_size = ss1;
+	if (ss1 > 0.0) {
 	  x += (ss1 * dir_scaling) * direction;
+	  cost_function_ = cf1;
 	}
 	state_up_to_date = 0;
 	return status;
@@ -260,9 +261,10 @@ namespace adept {
       else if (status != MINIMIZER_STATUS_NOT_YET_CONVERGED) {
 	// Cost function or its gradient not finite: revert to
 	// previous step
-	step_size = cf1;
-	if (cf1 > 0.0) {
+	step_size = ss1;
+	if (ss1 > 0.0) {
 	  x += (ss1 * dir_scaling) * direction;
+	  cost_function_ = cf1;
 	}
 	state_up_to_date = 0;
 	return status;
